@@ -21,6 +21,7 @@ import (
 	"sort"
 	"strings"
 	"sync"
+	"sync/atomic"
 	"time"
 
 	"google.golang.org/grpc"
@@ -29,6 +30,7 @@ import (
 	"google.golang.org/grpc/status"
 
 	"github.com/openconfig/gnmi/cache"
+	"github.com/openconfig/gnmi/coalesce"
 	"github.com/openconfig/gnmi/ctree"
 	pb "github.com/openconfig/gnmi/proto/gnmi"
 	"github.com/openconfig/gnmi/subscribe"
@@ -64,11 +66,20 @@ type Noti struct {
 
 // Step kinds: "update" (Cache.GnmiUpdate N), "remove" (Cache.Remove Target at
 // fake time Now), "sub" (the Subscribe call), "poll" (one trigger).
+//
+// Burst: 0 = ordinary step (the harness waits for quiescence after it); 1 / 2 =
+// member / last member of a burst whose steps run concurrently (the Subscribe
+// call in its own goroutine, cache operations by one writer goroutine per
+// target in script order) with quiescence awaited only at the end.  Gate: a
+// writer waits (briefly) until that many queue inserts have happened since the
+// burst started, to spread the writes over the walk.
 type Step struct {
 	K      string `json:"k"`
 	N      *Noti  `json:"n,omitempty"`
 	Target string `json:"target,omitempty"`
 	Now    int64  `json:"now,omitempty"`
+	Burst  int    `json:"burst,omitempty"`
+	Gate   int    `json:"gate,omitempty"`
 }
 
 type Req struct {
@@ -102,6 +113,7 @@ type OObs struct {
 	CRes    string   `json:"cres"` // ok err panic
 	Dump    []DEntry `json:"dump,omitempty"`
 	HasDump bool     `json:"has_dump,omitempty"`
+	Burst   int      `json:"burst,omitempty"`
 }
 
 type Run struct {
@@ -461,6 +473,53 @@ func pbRequest(r *Req) *pb.SubscribeRequest {
 	return &pb.SubscribeRequest{Request: &pb.SubscribeRequest_Subscribe{Subscribe: sl}}
 }
 
+// insertCount counts coalesce.Queue.Insert calls (hook point insert:checked).
+var insertCount int64
+
+func installHooks() {
+	coalesce.VerifHook = func(p string) {
+		if p == "insert:checked" {
+			atomic.AddInt64(&insertCount, 1)
+		}
+	}
+}
+
+// normaliseBursts makes the burst flags well formed (a shrunk or hand-written
+// script may have lost members): a maximal run of flagged steps becomes
+// 1,…,1,2; a run of one step, a run containing a poll, and a Subscribe step that
+// is not the first member of its run are unflagged.
+func normaliseBursts(ops []Step) {
+	for i := 0; i < len(ops); {
+		if ops[i].Burst == 0 {
+			i++
+			continue
+		}
+		j := i
+		ok := true
+		for j < len(ops) && ops[j].Burst != 0 {
+			if ops[j].K == "poll" || (ops[j].K == "sub" && j > i) {
+				ok = false
+			}
+			last := ops[j].Burst == 2
+			j++
+			if last {
+				break
+			}
+		}
+		if j-i < 2 || !ok {
+			for k := i; k < j; k++ {
+				ops[k].Burst = 0
+			}
+		} else {
+			for k := i; k < j; k++ {
+				ops[k].Burst = 1
+			}
+			ops[j-1].Burst = 2
+		}
+		i = j
+	}
+}
+
 func runScript(c *Case, withACL bool) *Run {
 	cache.Now = func() time.Time { return time.Unix(0, fakeNow) }
 	ca := cache.New(c.Targets)
@@ -483,45 +542,121 @@ func runScript(c *Case, withACL bool) *Run {
 	started, closedReqs, hung := false, false, false
 
 	run := &Run{}
-	for _, op := range c.Ops {
+	applyCache := func(op Step, ob *OObs) {
+		defer func() {
+			if r := recover(); r != nil {
+				ob.CRes = "panic"
+			}
+		}()
+		if op.K == "update" {
+			if err := ca.GnmiUpdate(pbNoti(op.N)); err != nil {
+				ob.CRes = "err"
+			}
+		} else {
+			fakeNow = op.Now
+			ca.Remove(op.Target)
+		}
+	}
+	startRPC := func() {
+		started = true
+		if c.Req != nil {
+			st.reqs <- pbRequest(c.Req)
+		} else {
+			close(st.reqs)
+			closedReqs = true
+		}
+		go func() {
+			defer close(done)
+			defer func() {
+				if r := recover(); r != nil {
+					rpcPanic = true
+				}
+			}()
+			rpcErr = srv.Subscribe(st)
+		}()
+	}
+	waitQuiet := func() {
+		if started && !hung {
+			if !settle(done, watchdog) {
+				hung = true
+				noteHang()
+			}
+		}
+	}
+	normaliseBursts(c.Ops)
+	for i := 0; i < len(c.Ops); i++ {
+		op := c.Ops[i]
+		if op.Burst != 0 {
+			// the members of the burst
+			j := i
+			for j < len(c.Ops) && c.Ops[j].Burst == 1 {
+				j++
+			}
+			members := c.Ops[i : j+1]
+			obs := make([]OObs, len(members))
+			for k := range obs {
+				obs[k] = OObs{CRes: "ok", Burst: members[k].Burst}
+			}
+			if members[0].K == "sub" && !started {
+				obs[0].HasDump = true
+				obs[0].Dump = dumpCache(ca, c.Targets)
+			}
+			base := atomic.LoadInt64(&insertCount)
+			perTarget := map[string][]int{}
+			var order []string
+			for k, m := range members {
+				switch m.K {
+				case "update":
+					t := m.N.Prefix.Target
+					if _, ok := perTarget[t]; !ok {
+						order = append(order, t)
+					}
+					perTarget[t] = append(perTarget[t], k)
+				case "remove":
+					t := m.Target
+					if _, ok := perTarget[t]; !ok {
+						order = append(order, t)
+					}
+					perTarget[t] = append(perTarget[t], k)
+				}
+			}
+			var wg sync.WaitGroup
+			for _, t := range order {
+				idx := perTarget[t]
+				wg.Add(1)
+				go func() {
+					defer wg.Done()
+					for _, k := range idx {
+						t0 := time.Now()
+						for n := 0; atomic.LoadInt64(&insertCount)-base < int64(members[k].Gate) && time.Since(t0) < 300*time.Microsecond; n++ {
+							runtime.Gosched()
+						}
+						applyCache(members[k], &obs[k])
+					}
+				}()
+			}
+			if members[0].K == "sub" && !started {
+				startRPC()
+			}
+			wg.Wait()
+			waitQuiet()
+			last := len(obs) - 1
+			obs[last].Group = st.take()
+			obs[last].HasDump = true
+			obs[last].Dump = dumpCache(ca, c.Targets)
+			run.Obs = append(run.Obs, obs...)
+			i = j
+			continue
+		}
 		ob := OObs{CRes: "ok"}
 		switch op.K {
 		case "update", "remove":
-			func() {
-				defer func() {
-					if r := recover(); r != nil {
-						ob.CRes = "panic"
-					}
-				}()
-				if op.K == "update" {
-					if err := ca.GnmiUpdate(pbNoti(op.N)); err != nil {
-						ob.CRes = "err"
-					}
-				} else {
-					fakeNow = op.Now
-					ca.Remove(op.Target)
-				}
-			}()
+			applyCache(op, &ob)
 		case "sub":
 			if started {
 				break
 			}
-			started = true
-			if c.Req != nil {
-				st.reqs <- pbRequest(c.Req)
-			} else {
-				close(st.reqs)
-				closedReqs = true
-			}
-			go func() {
-				defer close(done)
-				defer func() {
-					if r := recover(); r != nil {
-						rpcPanic = true
-					}
-				}()
-				rpcErr = srv.Subscribe(st)
-			}()
+			startRPC()
 			ob.HasDump = true
 		case "poll":
 			if started && !closedReqs {
@@ -533,12 +668,7 @@ func runScript(c *Case, withACL bool) *Run {
 			}
 			ob.HasDump = true
 		}
-		if started && !hung {
-			if !settle(done, watchdog) {
-				hung = true
-				noteHang()
-			}
-		}
+		waitQuiet()
 		ob.Group = st.take()
 		if ob.HasDump {
 			ob.Dump = dumpCache(ca, c.Targets)
@@ -706,7 +836,7 @@ func (f *caseFile) obs(obs []OObs) string {
 		if o.HasDump {
 			d = "(Some " + f.dump(o.Dump) + ")"
 		}
-		el[i] = fmt.Sprintf("OB %s %s %s", vh.List(g), cr, d)
+		el[i] = fmt.Sprintf("OB %s %s %s %d%%N", vh.List(g), cr, d, o.Burst)
 	}
 	return vh.List(el)
 }
@@ -879,6 +1009,7 @@ var realStderr = os.Stderr
 // quietLogs discards the glog output of the packages under test (nothing is
 // written under /tmp).
 func quietLogs() {
+	installHooks()
 	flag.Set("logtostderr", "true")
 	flag.Set("stderrthreshold", "FATAL")
 	if devnull, err := os.OpenFile(os.DevNull, os.O_WRONLY, 0); err == nil {
@@ -1132,4 +1263,20 @@ func (g *gen) requestOrigin() string {
 		return g.origin(1, 1, 1)
 	}
 	return g.dataOrigin()
+}
+
+// burstWrite makes a single-update (or, rarely, single-delete) notification
+// with a fresh value for a burst (no remove, no multi-update: the stored form
+// of the notification is the notification itself).
+func (g *gen) burstWrite(targets []string, burst int) Step {
+	r := g.r
+	g.ts += 1 + int64(r.Intn(2))
+	n := &Noti{TS: g.ts, Prefix: GPath{Target: targets[r.Intn(len(targets))], Origin: g.dataOrigin()}}
+	if r.Chance(1, 6) {
+		d := g.leafPath()
+		n.Dels = []GPath{{Elems: g.split(n, d[:1+r.Intn(len(d))])}}
+	} else {
+		n.Upds = []Upd{{Path: GPath{Elems: g.split(n, g.leafPath())}, Val: 100 + g.ts}}
+	}
+	return Step{K: "update", N: n, Burst: burst, Gate: r.Intn(6)}
 }
